@@ -128,3 +128,15 @@ class UtilBinaryMatrixRank:
   assumed = True
   assumed_why = "GF(2) elimination: induction over rows, bounded tier bounded/c15.py"
   ensures = ["0 <= result and result <= len(matrix)"]
+
+
+@contract(f"{N}::IsNonOverlappingTemplate")
+class IsNonOverlappingTemplate:
+  params = {"template": "int", "m": "int"}
+  returns = "bool"
+  requires = ["template >= 0", "m >= 1", "template < pow2(m)"]
+  # definition (NIST 2.7): no proper border -- for no 1 <= i < m do the first i bits equal the last i bits
+  ensures = [("C12", "result == forall(i, 1, m, idiv(template, pow2(m - i)) != template % pow2(i))")]
+  loops = {0: dict(invariant=["forall(j, 1, i, idiv(template, pow2(m - j)) != template % pow2(j))"])}
+  total = True
+  props = ["C12"]
